@@ -314,13 +314,48 @@ LongExpr(p) ==
                        VarI("y", PrimT(p.t), IF p.left THEN LeftSum(p.t, RV("x"), p.n) ELSE RightSum(p.t, RV("x"), p.n)), Pr(RV("y"))>>)>>)
 LongExprParams == {[fam |-> "longexpr", t |-> t, n |-> n, left |-> l] : t \in {"i32", "u8", "i128"}, n \in {1, 16, 64}, l \in BOOLEAN}
 
+(**************************** permlit ****************************************)
+\* A structure / word literal names its members in ANY order (features.md: `Position { y: 3, x: 4 }`); the value of member m
+\* is what was written after `m:`, whatever the order.  Members of ONE type (a permuted literal still type checks member by
+\* member), every permutation, all members constant or one taken from a variable, in every place a literal can stand
+\* (eighth round of seeded changes: a constant literal built in written order).
+Perms3 == << <<1, 2, 3>>, <<1, 3, 2>>, <<2, 1, 3>>, <<2, 3, 1>>, <<3, 1, 2>>, <<3, 2, 1>> >>
+PermLit(p) ==
+    LET i32 == PrimT("i32")
+        u8 == PrimT("u8")
+        word == p.kind = "word"
+        T == IF word THEN "u8" ELSE "i32"
+        ty == IF word THEN NamedT("WQ") ELSE NamedT("PS")
+        nm == IF word THEN "WQ" ELSE "PS"
+        names == <<"a", "b", "c">>
+        val(j) == IF p.rt /\ j = 2 THEN RV("r") ELSE Bin("+", Lit(T, 10 * j), Lit(T, j))      \* a: 11, b: 22 (or r), c: 33
+        declared == [j \in 1..3 |-> Fld(names[j], val(j))]
+        fs == [x \in 1..3 |-> declared[Perms3[p.perm][x]]] \o (IF word THEN <<Fld("d", Lit("u8", 44))>> ELSE <<>>)
+        lit == StE(nm, fs)
+        decls == <<SD("PS", <<Mem("a", i32), Mem("b", i32), Mem("c", i32)>>),
+                   WD("WQ", 32, <<Mem("a", u8), Mem("b", u8), Mem("c", u8), Mem("d", u8)>>),
+                   SD("Out", <<Mem("k", i32), Mem("inner", ty)>>)>>
+        show(x, steps) == <<Pr(Ref(x, 0, steps \o <<Mb("a")>>)), Pr(Ref(x, 0, steps \o <<Mb("b")>>)), Pr(Ref(x, 0, steps \o <<Mb("c")>>))>>
+        pre == <<VarI("r", PrimT(T), Lit(T, 77))>>
+        useFn == FnV("use", <<Par("s", ty)>>, show("s", <<>>))
+        body == CASE p.ctx = "var" -> <<VarI("s", ty, lit)>> \o show("s", <<>>)
+                  [] p.ctx = "assign" -> <<VarI("s", ty, StE(nm, declared \o (IF word THEN <<Fld("d", Lit("u8", 1))>> ELSE <<>>))), SetV("s", lit)>> \o show("s", <<>>)
+                  [] p.ctx = "elem" -> <<VarI("arr", ArrT(2, ty), ArrE(<<lit, lit>>))>> \o show("arr", <<IxN(1)>>)
+                  [] p.ctx = "nested" -> <<VarI("o", NamedT("Out"), StE("Out", <<Fld("inner", lit), Fld("k", Lit("i32", 5))>>))>> \o show("o", <<Mb("inner")>>) \o <<Pr(Ref("o", 0, <<Mb("k")>>))>>
+                  [] p.ctx = "const" -> show("KS", <<>>)
+    IN Program(decls, IF p.ctx = "const" THEN <<[x |-> "KS", ty |-> ty, e |-> lit]>> ELSE <<>>, <<MainFn(pre \o body)>>)
+PermLitParams == {[fam |-> "permlit", kind |-> k, perm |-> q, ctx |-> c, rt |-> r] :
+                     k \in {"struct", "word"}, q \in 1..6, c \in {"var", "assign", "elem", "nested", "const"}, r \in BOOLEAN}
+                 \ {x \in [fam : {"permlit"}, kind : {"struct", "word"}, perm : 1..6, ctx : {"const"}, rt : {TRUE}] : TRUE}
+
 (***************************************************************************)
-Params == DeepBlocksParams \cup LongExprParams \cup BigArrParams \cup BigStructParams \cup Arr3Params \cup ZeroLenParams \cup ViewViewParams \cup IterPtrParams
+Params == PermLitParams \cup DeepBlocksParams \cup LongExprParams \cup BigArrParams \cup BigStructParams \cup Arr3Params \cup ZeroLenParams \cup ViewViewParams \cup IterPtrParams
             \cup LoopLocalParams \cup WordCopyParams
 Build(p) == CASE p.fam = "bigarr" -> BigArr(p) [] p.fam = "bigstruct" -> BigStruct(p) [] p.fam = "arr3" -> Arr3(p)
               [] p.fam = "zerolen" -> ZeroLen(p) [] p.fam = "viewview" -> ViewView(p) [] p.fam = "iterptr" -> IterPtr(p)
               [] p.fam = "looplocal" -> LoopLocal(p) [] p.fam = "wordcopy" -> WordCopy(p)
               [] p.fam = "deepblocks" -> DeepBlocks(p) [] p.fam = "longexpr" -> LongExpr(p)
+              [] p.fam = "permlit" -> PermLit(p)
 
 None == [fam |-> ""]
 VARIABLES par, prog, res, done
